@@ -69,6 +69,8 @@ InvPartition    == T => LawPartition(a, b, p)
 InvAntipode     == T => LawAntipode(a, b, p)
 InvCone         == T => LawCone(a, b, p)
 InvTripleMargin == T => LawTripleMargin(a, b, p)
+InvShrinkTriple == T => LawShrinkTriple(a, b, p, Points)
+InvShrinkLat    == T => LawShrinkLat(a, b, p)
 
 InvSignIsDefinitional == P => LawSignIsDefinitional(a, b, c, d)
 InvPairSwapArcs == P => LawPairSwapArcs(a, b, c, d)
@@ -76,6 +78,7 @@ InvPairSwapEnds == P => LawPairSwapEnds(a, b, c, d)
 InvPairRotZ     == P => LawPairRotZ(a, b, c, d)
 InvPairRot24    == (P /\ WithRot24) => LawPairRot24(a, b, c, d)
 InvPairMargin   == P => LawPairMargin(a, b, c, d)
+InvShrinkPair   == P => LawShrinkPair(a, b, c, d)       \* K = KP = 1 only (x is of degree 4 in K)
 
 A == st = "A"
 InvLatSwap      == A => LawLatSwap(a, b)
